@@ -146,7 +146,7 @@ impl<'r, R: ReadValue> Field<'r, R> {
             FieldValue::Len(len) => {
                 self.consume_field()?;
                 Ok(Fields {
-                    reader: self.reader.sub_limit(len),
+                    reader: self.reader.sub_limit(len)?,
                     context,
                     unconsumed_field: None,
                 })
@@ -242,7 +242,7 @@ impl<'r, R: ReadValue> Field<'r, R> {
             FieldValue::Varint(val) => Repeated::Unpacked(Some(from_u64(val))),
             FieldValue::Len(len) => {
                 let consumed = &mut self.consumed;
-                let mut reader = self.reader.sub_limit(len);
+                let mut reader = self.reader.sub_limit(len)?;
                 let iter = std::iter::from_fn(move || match reader.read_varint() {
                     Ok(val) => Some(Ok(from_u64(val))),
                     Err(err) if matches!(err.kind(), ErrorKind::Eof) => {
@@ -269,7 +269,7 @@ impl<'r, R: ReadValue> Field<'r, R> {
             FieldValue::I32(val) => Repeated::Unpacked(Some(from_le_bytes(val.to_le_bytes()))),
             FieldValue::Len(len) => {
                 let consumed = &mut self.consumed;
-                let mut reader = self.reader.sub_limit(len);
+                let mut reader = self.reader.sub_limit(len)?;
                 let iter = std::iter::from_fn(move || match reader.read_i32() {
                     Ok(val) => Some(Ok(from_le_bytes(val.to_le_bytes()))),
                     Err(err) if matches!(err.kind(), ErrorKind::Eof) => {
@@ -296,7 +296,7 @@ impl<'r, R: ReadValue> Field<'r, R> {
             FieldValue::I64(val) => Repeated::Unpacked(Some(from_le_bytes(val.to_le_bytes()))),
             FieldValue::Len(len) => {
                 let consumed = &mut self.consumed;
-                let mut reader = self.reader.sub_limit(len);
+                let mut reader = self.reader.sub_limit(len)?;
                 let iter = std::iter::from_fn(move || match reader.read_i64() {
                     Ok(val) => Some(Ok(from_le_bytes(val.to_le_bytes()))),
                     Err(err) if matches!(err.kind(), ErrorKind::Eof) => {
@@ -453,8 +453,14 @@ impl<'r, R: ReadValue> Fields<'r, R> {
         }
         .map_err(|err| err.with_context(self.context, Some(number)))?;
 
+        // Check that the field does not extend beyond the end of the message.
+        let reader = self
+            .reader
+            .sub_limit(len)
+            .map_err(|err| err.with_context(self.context, Some(number)))?;
+
         Ok(Some(Field {
-            reader: self.reader.sub_limit(len),
+            reader,
             number,
             consumed: !matches!(value, FieldValue::Len(_)),
             value,
